@@ -251,7 +251,8 @@ pub fn run(report: &Report, thorough: bool) -> Evidence {
     // ---------------- phonetic method ----------------
     // two alphabets: letters whose words split into base + suffix, and punctuation / emoticon
     // characters (compositions without a word part, e.g. the emoticon ;) with its emoji)
-    let plans: Vec<(&str, usize)> = vec![("aser", if thorough { 6 } else { 5 }), ("a;).:", if thorough { 5 } else { 3 })];
+    // ... and letter case (t / T are different letters, the tiny dictionary has words for both)
+    let plans: Vec<(&str, usize)> = vec![("aser", if thorough { 6 } else { 5 }), ("a;).:", if thorough { 5 } else { 3 }), ("tTu", if thorough { 5 } else { 4 })];
     let mut ph_parts = vec![];
     for (plan_keys, depth) in plans {
       if crate::par::part_enabled("phonetic") {
